@@ -671,6 +671,10 @@ class FnTranslator:
         info = FnInfo()
         info.impl, info.name = self.impl, f["name"]
         info.lean_name = (self.impl + "." if self.impl else "") + lid(f["name"])
+        if getattr(u, "rename_getters", False) and self.impl in u.fi.structs and f["name"] in [fn_ for fn_, _ in u.fi.structs[self.impl]]:
+            # (b1012, round 9; opt-in per target unit: `"rename_getters": true`) a method named like a field of its struct
+            # (`fn node(&self) -> &Arc<Node> { &self.node }`) cannot be a Lean `def` next to the structure's projection: suffix `_fn`
+            info.lean_name = self.impl + "." + f["name"] + "_fn"
         info.params, info.ret, info.val_ty = params, self.ret, self.val_ty
         info.is_result = self.is_result
         info.mut_self = self.selfk == "mut"
